@@ -354,7 +354,7 @@ fn main() {
         rep.add_all(rs);
         rep.finish(0);
     }
-    let n = args.tier.pick(40_000usize, 3_000_000usize);
+    let n = args.tier.pick(160_000usize, 3_000_000usize);
     if let Some(one) = args.extra.get("only") {
         let i: usize = one.parse().unwrap();
         let rs = dispatch(SETUPS[i % SETUPS.len()], args.seed, i, args.tier);
